@@ -97,6 +97,21 @@ func (p *Pool[K, V]) removeEntry(ent *entry[K, V]) {
 		return
 	}
 
+	// the entry may already have been unlinked by a concurrent Take or by an
+	// evicting Put that lost the race against this expiration callback
+	// (Timer.Stop returned false). unlinking it a second time would corrupt
+	// the lists and their counts.
+	linked := false
+	for e := local.head; e != nil; e = e.local.next {
+		if e == ent {
+			linked = true
+			break
+		}
+	}
+	if !linked {
+		return
+	}
+
 	local.removeEntry(ent, (*entry[K, V]).localList)
 	p.order.removeEntry(ent, (*entry[K, V]).globalList)
 
